@@ -188,9 +188,19 @@ func init() {
 			if _, err := c.Connect(ctx, "cid"); err != nil {
 				return Result{Out: "", Props: []PropResult{viol("C10", "setup", "connect: %v", err)}}
 			}
+			// the identifier counter wraps within the first few requests of this run
+			c.VerifSetIDLast(uint32(0xFFF0 + seed%12))
 			var wg sync.WaitGroup
 			var mu sync.Mutex
 			sent := map[string]int{}
+			bigPayload := func(rng *rand.Rand) []byte {
+				// now and then a payload of several kilobytes: a writer that does not hold the write
+				// lock for the whole packet would be interleaved with the other writers
+				if rng.Intn(6) == 0 {
+					return randBytes(rng, 4000+rng.Intn(5000))
+				}
+				return randBytes(rng, rng.Intn(200))
+			}
 			for i := 0; i < g; i++ {
 				wg.Add(1)
 				go func(i int) {
@@ -201,10 +211,10 @@ func init() {
 						kind := ""
 						switch rng.Intn(9) {
 						case 0, 1:
-							err = c.Publish(ctx, &mqtt.Message{Topic: fmt.Sprintf("t/%d", i), QoS: mqtt.QoS0, Payload: randBytes(rng, rng.Intn(200))})
+							err = c.Publish(ctx, &mqtt.Message{Topic: fmt.Sprintf("t/%d", i), QoS: mqtt.QoS0, Payload: bigPayload(rng)})
 							kind = "30"
 						case 2, 3:
-							err = c.Publish(ctx, &mqtt.Message{Topic: fmt.Sprintf("t/%d", i), QoS: mqtt.QoS1, Payload: randBytes(rng, rng.Intn(200))})
+							err = c.Publish(ctx, &mqtt.Message{Topic: fmt.Sprintf("t/%d", i), QoS: mqtt.QoS1, Payload: bigPayload(rng)})
 							kind = "30"
 						case 4:
 							err = c.Publish(ctx, &mqtt.Message{Topic: fmt.Sprintf("t/%d", i), QoS: mqtt.QoS2, Payload: randBytes(rng, rng.Intn(50))})
